@@ -159,11 +159,14 @@ def gen_tables(rng: random.Random, n_dec=None, max_lines=4, max_ds=4, aliases=Tr
     stable = names[n_dec:]
     alias = {}
     doc = []
+    # alias targets come from a small pool so that several aliases of one particle, and an alias next to
+    # the aliased particle itself (both with their own Decay block), do occur
+    pool = [rng.choice(stable), rng.choice(dec), rng.choice([n for n in evtgen_names() if safe_label(n)][:50])]
     for i, d in enumerate(dec):
-        if aliases and i > 0 and rng.random() < 0.3:
-            # the decaying particle is an alias of a real particle
-            target = rng.choice(stable + [n for n in evtgen_names() if safe_label(n)][:50])
-            alias[d] = target
+        if aliases and i > 0 and rng.random() < 0.4:
+            target = rng.choice(pool)
+            if target != d:
+                alias[d] = target
     blocks = []
     for i, d in enumerate(dec):
         n_lines = rng.randint(0 if (empty_blocks and i > 0 and rng.random() < 0.15) else 1, max_lines)
